@@ -117,6 +117,16 @@ func decisionTable(start *ssa.BasicBlock, cfg dtConfig) []dtLeaf {
 				t, f, ok := split(c.X, s, path, depth+1)
 				return f, t, ok
 			}
+			// table[c].flag: a boolean column of a package-level table of structs
+			if fa, ok := c.X.(*ssa.FieldAddr); ok && c.Op == token.MUL {
+				if ia, ok := fa.X.(*ssa.IndexAddr); ok && (strip(ia.Index) == cfg.Var || cfg.Aliases[strip(ia.Index)]) {
+					if g, ok := ia.X.(*ssa.Global); ok {
+						if ts, ok := structTableColumn(g, fieldName(fa.X.Type(), fa.Field)); ok {
+							return s.Intersect(ts), s.Minus(ts), true
+						}
+					}
+				}
+			}
 			// table[c] with table a parameter bound to a byte set for this summary
 			if ia, ok := c.X.(*ssa.IndexAddr); ok && c.Op == token.MUL && (strip(ia.Index) == cfg.Var || cfg.Aliases[strip(ia.Index)]) {
 				if ts, ok := paramSetOf(ia.X); ok {
@@ -631,4 +641,42 @@ func splitElementwise(c *ssa.BinOp, s *relang.Set, fx, fy func(int64) int64) (*r
 	}
 	t := relang.NewSet(ts...)
 	return t, s.Minus(t), true
+}
+
+// structTableColumn: the indices of a package-level array/slice of structs (written once, as a literal) whose
+// boolean field is true.
+func structTableColumn(g *ssa.Global, field string) (*relang.Set, bool) {
+	if curProgram == nil || g.Pkg == nil {
+		return nil, false
+	}
+	if pk := curProgram.All[g.Pkg.Pkg.Path()]; pk != nil {
+		if vr, ok := g.Object().(*types.Var); ok && curProgram.assignedAnywhere(pk, vr) {
+			return nil, false
+		}
+	}
+	lit, err := curProgram.VarLit(relOf(g.Pkg.Pkg.Path()), cname(g))
+	if err != nil || lit.Kind != "array" {
+		return nil, false
+	}
+	set := &relang.Set{}
+	for i, k := range lit.Keys {
+		idx, ok := k.Int()
+		v := lit.Vals[i]
+		if !ok || v.Kind != "struct" {
+			return nil, false
+		}
+		for j, fn := range v.Field {
+			if fn != field {
+				continue
+			}
+			b, ok := v.Vals[j].Bool()
+			if !ok {
+				return nil, false
+			}
+			if b {
+				set = set.Union(relang.NewSet(int32(idx), int32(idx)))
+			}
+		}
+	}
+	return set, true
 }
